@@ -392,7 +392,7 @@ def build_stages(pc2, g, sk, idx, hints, float_mode):
     return stages
 
 
-def solve_stages(stages, rlimit, timeout_ms, use_cvc5, cex_terms, deadline=None, confirm=False):
+def solve_stages(stages, rlimit, timeout_ms, use_cvc5, cex_terms, deadline=None, confirm=False, fast=False):
     """rounds of growing budget; first unsat wins. Only complete stages (qf when there is no full stage, full) give a
     definite counter-model; a qf model with an undecided full stage is a candidate ("sat-qf")."""
     t0 = time.time()
@@ -453,13 +453,19 @@ def solve_stages(stages, rlimit, timeout_ms, use_cvc5, cex_terms, deadline=None,
     z3_round(0.05)
     if verdict == "unknown":
         z3_round(0.2)  # many array/quantifier obligations need a little more than the first slice; cheaper than a cvc5 start
+    if fast and verdict == "unknown":
+        # first pass over all sub-goals of an obligation: whatever is still open is rescheduled on its own with the full budget
+        return {"verdict": "open", "backend": "", "model": None, "detail": detail, "secs": round(time.time() - t0, 3), "second": None}
     if verdict == "unknown" and use_cvc5:
         cvc5_round(8)
     if verdict == "unknown":
         z3_round(1.0)
     if verdict == "unknown" and use_cvc5:
         cvc5_round(min(90, max(10, timeout_ms // 2000)))
-    if verdict == "unknown" and cand is not None:
+    cut = any(lbl in ("full", "cvc5/full") and (str(res_).startswith("unknown:killed") or str(res_).startswith("skipped")) for lbl, res_, _ in detail)
+    if verdict == "unknown" and cand is not None and not cut:
+        # a candidate model of the quantifier-free weakening while the complete query ran out of its (deterministic) rlimit. If the complete
+        # query was cut by the WALL CLOCK instead (overloaded machine), the obligation stays undecided: never a violation because of load.
         verdict, backend, model = "sat-qf", "z3/qf", cand
     second = None
     if confirm and verdict == "unsat" and backend.startswith("z3/"):
